@@ -84,6 +84,8 @@ type Gen struct {
 	Extra       map[string]interface{}
 	Static      []frame.Result  // obligations discharged by SSA data-flow
 	done        map[string]bool // contracts already verified by this check (dependency waves)
+	prop        string
+	dependsOn   map[string]string // property -> why its contracts are taken as discharged there
 }
 
 func newGen() *Gen {
@@ -466,6 +468,30 @@ func Run(id, repo, verif, tier string, seed int, writeBaseline bool) int {
 			doc = symex.TrustedDoc["(generic scalar)"]
 		}
 		trusted = append(trusted, "trusted library contract "+k+": "+doc)
+	}
+	// contracts of /repo functions that are assumed, not verified (flag trusted), and used
+	for k := range g.Used {
+		if fc := env.CS.Funcs[k]; fc != nil && fc.Flags["trusted"] {
+			var cl []string
+			for _, e := range fc.Default().Ensures {
+				cl = append(cl, e.Text)
+			}
+			desc := "assumed contract of " + k + " (body not verified)"
+			if fc.HasAssigns {
+				if len(fc.Assigns) == 0 {
+					desc += "; assigns nothing"
+				} else {
+					desc += "; assigns " + strings.Join(fc.Assigns, ", ")
+				}
+			}
+			if len(cl) > 0 {
+				desc += "; ensures " + strings.Join(cl, " && ")
+			}
+			if fc.Flags["pure"] {
+				desc += "; used as a deterministic function of its arguments"
+			}
+			trusted = append(trusted, desc)
+		}
 	}
 	sort.Strings(trusted)
 	trusted = append(trusted,
